@@ -137,7 +137,19 @@ cu = repo.mod("dask_array._core_utils")
 for fn in ("normalize_chunks", "auto_chunks", "blockdims_from_blockshape"):
     add("C16", cu.func(fn), ("raise",), why="an invalid chunk specification is refused instead of producing a layout that does not tile the shape")
 
+# ---- C19: validity conditions of the native banded window kernels -------------------------------------------
+swm = repo.mod("dask_array.reductions._sliding_window")
+for fn in ("supports_native_sliding_window", "supports_native_moving_window"):
+    add("C19", swm.func(fn), ("return",), pred=lambda s, ek, text: ek in ("return False", "return True"),
+        why="the banded decomposition is valid only when every output-emitting block is shorter than the window (and sizes are known, the array holds a window)")
+
 os.makedirs(os.path.dirname(FIXTURE), exist_ok=True)
 with open(FIXTURE, "w") as fh:
     json.dump(out, fh, indent=1, sort_keys=True)
 print({k: len(v) for k, v in out.items()})
+
+# C19: the conditions the two predicates return as values (not covered by exit-condition fingerprints)
+from sa.rules.c19 import value_fingerprints  # noqa: E402
+
+with open(os.path.join(os.path.dirname(FIXTURE), "c19_returned_conditions.json"), "w") as fh:
+    json.dump(value_fingerprints(repo), fh, indent=1, sort_keys=True)
